@@ -51,7 +51,7 @@ class Namer:
 
 def gen_net(rng, n_inputs=(1, 5), n_gates=(1, 10), types=None, max_arity=4, constants=0.3,
             bbs=0, cyclic=False, name_style="plain", input_outputs=0.1, unconnected_pins=0.0,
-            name="top", min_outputs=1, all_sinks_outputs=False, parity_bias=0.0, bb_types=None, shuffle_order=0.3):
+            name="top", min_outputs=1, all_sinks_outputs=False, parity_bias=0.0, bb_types=None, shuffle_order=0.3, self_loops=0.15):
     """Generate a lint-clean net.  Returns the net dict."""
     types = list(types or ALL_GATES)
     nm = Namer(rng, name_style)
@@ -113,11 +113,14 @@ def gen_net(rng, n_inputs=(1, 5), n_gates=(1, 10), types=None, max_arity=4, cons
         for _ in range(rng.randint(lo, hi)):
             g = rng.choice(gates)
             later = [x for x in gates if order.index(x) > order.index(g)]
-            if not later:
+            if self_loops and rng.random() < self_loops:
+                src = g  # a gate feeding itself: the shortest cycle (keeper / ring of one inverter)
+            elif not later:
                 continue
-            src = rng.choice(later)
+            else:
+                src = rng.choice(later)
             t, fi, o = nodes[g]
-            if src in fi or src == g:
+            if src in fi:
                 continue
             if t in ("buf", "not"):
                 nodes[g][1] = [src]
